@@ -375,6 +375,15 @@ func runC06(c C06Case) (st Stats, err error) {
 					m.ex = &cp
 					st.Class("held-stack-poked")
 				}
+			case "otherhandle":
+				// a second handle of the Condition (a copy of the variable) is re-initialised and given other
+				// content: Init replaces the instance behind THAT handle only, this one keeps what it accepted
+				cls = "second-handle-reinitialised"
+				h := cd
+				h.Init()
+				h.SetKeyword("elsewhere").SetOperator(stackage.Ge).SetExpression("other value")
+				h.SetParen(true)
+				st.Class("second-handle-reinitialised")
 			case "nonest":
 				m.nonest = triApply(m.nonest, s.Mode)
 				cd.SetNoNesting(triArgs(s.Mode)...)
@@ -507,7 +516,7 @@ func genC06(t *rapid.T, tier Tier) C06Case {
 		c.Kw, c.Oper, c.Ex = genKw(t), genOper(t), genExpr(t)
 	}
 	n := rapid.IntRange(0, 25).Draw(t, "nsteps")
-	ops := []string{"kw", "op", "op", "ex", "ex", "ex", "nonest", "nopad", "paren", "encap", "seterr", "poke", "poke"}
+	ops := []string{"kw", "op", "op", "ex", "ex", "ex", "nonest", "nopad", "paren", "encap", "seterr", "poke", "poke", "otherhandle"}
 	lastEx := c.Ex
 	for i := 0; i < n; i++ {
 		s := C06Step{Op: rapid.SampledFrom(ops).Draw(t, "op")}
